@@ -33,6 +33,7 @@ func init() {
 		ID:    "C12",
 		Level: "exploration",
 		Rule: "case = (mode, segment size 2..12, output-module initial block from the boundary lattice {0,1,s-1,s,s+1,2s-1,2s,2s+1,3s,3s+1}) x " + fmt.Sprint(c12PerCase) + " PRNG tuples (0..3 store initial blocks, start, stop in {0, start+1..}, final block in {unknown, 0..60}; quick: all values from the lattice +-1, thorough: additionally free values in 0..50) resolved with the real pipeline.BuildRequestDetails and planned with the real plan.BuildTier1RequestPlan chained exactly as Tier1Service.blocks chains them; " +
+			"plus (last cases: quick 40, thorough 2 000) end-to-end resumption from the cursor of a delivered NON-final block of the canonical chain of a generated package (same and empty cache): resolves to block+1 without undo signal, hand-off <= start, and delivers exactly the messages that followed in the original stream with every store read equal to the reference (the harness's linear feed honours cursor-is-target as bstream does: it starts at the hand-off when told so, right after the cursor otherwise); " +
 			"plus cursor cases (every step type x block/LIB relation x fork-resolver answer) and, for a sample of accepted plans, an end-to-end execution through the in-process cluster which must complete with the reference outputs. " +
 			"Invariants (from the property statement): linear range = [hand-off, stop) or none when hand-off >= stop; gate = max(start, hand-off); production reads cached outputs for exactly [start, min(hand-off, stop)) when start < hand-off, development mode never starts above... the hand-off (hand-off <= start); the two ranges tile [start, stop); stores are built for [lowest store initial block, hand-off) iff some store starts below the hand-off; the hand-off is a multiple of the segment size whenever stores are built or outputs written up to it, and every job range is a whole segment clipped only at an initial block; a forked cursor gives an undo signal for the junction and start = junction+1. " +
 			"non-trivial = accepted tuple with a store below the start block and start, hand-off, stop in three different segments or straddling a boundary; distinct by tuple",
@@ -40,7 +41,8 @@ func init() {
 			"graph shape: an output map reading 0..3 stores (get mode), each store reading the block source; initial blocks are what matters to planning",
 			"an error is always an acceptable answer for the planner (the property only forbids unexecutable plans); executability itself is observed on a sample",
 		},
-		Cases: func(tier, mode string) int { return 2 * 11 * 10 },
+		Cases: func(tier, mode string) int { return 2*11*10 + c12CursorResumeCases(tier) },
+		CaseTimeout: 300e9,
 		MinNontrivial: 200,
 		Run:           runC12,
 	})
@@ -94,7 +96,18 @@ type c12Tuple struct {
 	CursorAt   int64    `json:"cursor_at"` // >= 0: the request carries the cursor of this FINAL block (and start_block_num = Start <= it)
 }
 
+func c12CursorResumeCases(tier string) int {
+	if tier == "thorough" {
+		return 2000
+	}
+	return 40
+}
+
 func runC12(c *fw.Case) {
+	if c.Index >= 2*11*10 {
+		runCursorResume(c, "C12")
+		return
+	}
 	idx := c.Index
 	prod := idx%2 == 1
 	idx /= 2
